@@ -105,6 +105,12 @@ def intRepr : Sexp → Option IntRepr
     | _, _ => none
   | _ => none
 
+/-- `tag2el_cxer[].el_no` of a SET whose first `n` of `total` components form the extension root (X.693 §9.3): the
+    root in canonical tag order (X.680 §8.6; an untagged CHOICE counts with its smallest tag), then the extension
+    additions in textual order (`_fill_tag2el_map(FTE_CANONICAL_XER)`: "CXER mandates sorting only for the root part") -/
+def setCxerOrder (keys : List Tag) (n total : Nat) : List Nat :=
+  L2.canonicalOrder (keys.take n) ++ (List.range (total - n)).map (· + n)
+
 /-- identifiers / values of `((name value)...)` -/
 def enumItems : List Sexp → Option (List (Bytes × Int))
   | [] => some []
@@ -188,18 +194,11 @@ partial def resolveXTy (ctx : ModCtx) (seen : List String) (e : Sexp) : Option X
       let ks := (scomps.zip tys).map fun (a, t) => (L2.compType a).bind fun te => L2.orderKey sctx 16 te t
       if ks.all Option.isSome then
         let keys := ks.filterMap id
-        -- tag2el_cxer: the extension root sorted by (smallest) tag, then the additions in textual order ...
-        let cxer := L2.canonicalOrder (keys.take n) ++ (List.range (comps.length - n)).map (· + n)
-        -- ... but asn1c_lang_C_type_SET_def drops that table when `memcmp(tag2el, tag2el_cxer, tag2el_count)`
-        -- (a BYTE count) finds no difference, and SET_encode_xer then walks the table of ALL tags in canonical
-        -- order.  The tables have the same number of entries unless a member is an untagged CHOICE; fewer than
-        -- 17 octets only cover tag class and mode of the first entry.
-        let all := L2.canonicalOrder keys
-        let sameCount := tys.all fun t => !(L2.isUntaggedChoice t)
-        let firstSame := match all.head?, cxer.head? with
-          | some i, some j => (keys[i]?.map (·.cls)) == (keys[j]?.map (·.cls))
-          | _, _ => true
-        some (.set ns ms attrs (if sameCount && firstSame then all else cxer) (ext != .atom "-"))
+        -- tag2el_cxer (X.693 §9.3 / X.680 §8.6): the extension root sorted by (smallest) tag, then the extension
+        -- additions in textual order.  asn1c_lang_C_type_SET_def drops that table only when it is the same as the
+        -- table of ALL tags in canonical order (finding F65 repaired: the comparison covers every entry; it was
+        -- `memcmp(tag2el, tag2el_cxer, tag2el_count)`, a BYTE count), so SET_encode_xer always walks this order.
+        some (.set ns ms attrs (setCxerOrder keys n comps.length) (ext != .atom "-"))
       else none
     | _, _, _ => none
   | .list [.atom "CHOICE", _, ext, .list alts] =>
